@@ -21,6 +21,8 @@ import (
 	"time"
 
 	"github.com/openGemini/openGemini/lib/util/lifted/influx/influxql"
+
+	"verifharness/vf"
 )
 
 type canonOpts struct {
@@ -424,3 +426,8 @@ func classifyExpr(a, b influxql.Expr) verdict {
 	}
 	return v
 }
+
+// catchW is vf.Catch with a watchdog: the parsers and decoders under test are handed
+// machine-made text and may loop for ever on it (seen: Parser.parseSet on a string literal
+// the printer left unterminated). Such a call is reported like a panic ("hang: ...").
+func catchW(f func()) any { return vf.CatchHang(f, 45*time.Second) }
